@@ -347,9 +347,35 @@ func (f *TF) And(a, b *Term) *Term {
 	}
 	return f.bin(OpAnd, a, b)
 }
+// asField recognises zext(x) * 2^k (k may be 0): the bits of x placed at position k of a wider zero word.
+func asField(t *Term) (inner *Term, shift int, ok bool) {
+	if t.op == OpZExt {
+		return t.args[0], 0, true
+	}
+	if t.op == OpMulC && t.val != 0 && t.val&(t.val-1) == 0 && t.args[0].op == OpZExt {
+		k := bits.TrailingZeros64(t.val)
+		in := t.args[0].args[0]
+		if k+in.w <= t.w {
+			return in, k, true
+		}
+	}
+	return nil, 0, false
+}
+
 func (f *TF) Or(a, b *Term) *Term {
 	if a.IsConst() && b.IsConst() {
 		return f.Const(a.w, a.val|b.val)
+	}
+	if x, sx, ok1 := asField(a); ok1 {
+		if y, sy, ok2 := asField(b); ok2 {
+			// two adjacent bit fields: one wider field (byte-wise decoding of integers becomes a concat)
+			if sx > sy {
+				x, y, sx, sy = y, x, sy, sx
+			}
+			if sy == sx+x.w {
+				return f.Mul(f.ZExt(f.Concat(y, x), a.w), f.Const(a.w, uint64(1)<<uint(sx)))
+			}
+		}
 	}
 	if a.IsConst() {
 		a, b = b, a
@@ -475,6 +501,20 @@ func (f *TF) Extract(a *Term, hi, lo int) *Term {
 	if a.op == OpIte && a.args[1].IsConst() && a.args[2].IsConst() {
 		return f.Ite(a.args[0], f.Extract(a.args[1], hi, lo), f.Extract(a.args[2], hi, lo))
 	}
+	if a.op == OpLShr && a.args[1].IsConst() {
+		// bits of (x >> k): bits of x, k higher
+		k := int(a.args[1].val)
+		if hi+k < a.w {
+			return f.Extract(a.args[0], hi+k, lo+k)
+		}
+	}
+	if a.op == OpMulC && a.val&(a.val-1) == 0 && a.val != 0 {
+		// bits of (x * 2^k): bits of x, k lower
+		k := bits.TrailingZeros64(a.val)
+		if lo >= k {
+			return f.Extract(a.args[0], hi-k, lo-k)
+		}
+	}
 	return f.mk(&Term{op: OpExtract, w: hi - lo + 1, args: []*Term{a}, extra: hi<<8 | lo})
 }
 func (f *TF) ZExt(a *Term, w int) *Term {
@@ -519,6 +559,14 @@ func (f *TF) Concat(hi, lo *Term) *Term {
 	}
 	if hi.IsConst() && hi.val == 0 {
 		return f.ZExt(lo, hi.w+lo.w)
+	}
+	if hi.op == OpExtract && lo.op == OpExtract && hi.args[0] == lo.args[0] && hi.extra&0xff == (lo.extra>>8)+1 {
+		// adjacent pieces of the same term
+		return f.Extract(hi.args[0], hi.extra>>8, lo.extra&0xff)
+	}
+	if lo.op == OpConcat && hi.op == OpExtract && lo.args[0].op == OpExtract && hi.args[0] == lo.args[0].args[0] &&
+		hi.extra&0xff == (lo.args[0].extra>>8)+1 {
+		return f.Concat(f.Extract(hi.args[0], hi.extra>>8, lo.args[0].extra&0xff), lo.args[1])
 	}
 	return f.mk(&Term{op: OpConcat, w: hi.w + lo.w, args: []*Term{hi, lo}})
 }
@@ -937,6 +985,14 @@ func (t *Term) body() string {
 	case OpAdd:
 		return nary("bvadd")
 	case OpMulC:
+		if t.w > 1 && t.val&(uint64(1)<<uint(t.w-1)) != 0 && t.val != uint64(1)<<uint(t.w-1) {
+			// negative coefficient: print as the negation of the positive multiple, so that +c*x and -c*x share one multiplier
+			pos := (^t.val + 1) & mask(t.w)
+			if pos == 1 {
+				return fmt.Sprintf("(bvneg %s)", a(0))
+			}
+			return fmt.Sprintf("(bvneg (bvmul %s %s))", a(0), constStr(t.w, pos))
+		}
 		return fmt.Sprintf("(bvmul %s %s)", a(0), constStr(t.w, t.val))
 	case OpMul:
 		return nary("bvmul")
